@@ -25,10 +25,12 @@ checks = [
 # plugin modules (tools/*_pipe.py) may contribute their own entries
 import glob, importlib, sys
 sys.path.insert(0, os.path.join(V, "tools"))
+# plugins reviewed and accepted (others may exist on disk while they are being built)
+ACCEPTED = ["seqapi_pipe"]
 engines_extra = []
 for f in sorted(glob.glob(os.path.join(V, "tools", "*_pipe.py"))):
     name = os.path.basename(f)[:-3]
-    if name == "yata_pipe":
+    if name == "yata_pipe" or name not in ACCEPTED:
         continue
     m_ = importlib.import_module(name)
     if hasattr(m_, "manifest_entries"):
